@@ -763,6 +763,16 @@ func GenerateTwins(seed uint64, idFlat, idEmb string) (*sdl.Program, *sdl.Progra
 			t.Custom = append(t.Custom, cu)
 		}
 	}
+	// components of function-local types that embed a function-local "Mixin": one without
+	// fields, one with a logger field (distinct types, one package path, one name)
+	if r.p(0.15) {
+		n := len(p.Instances)
+		for z, mx := range []string{"empty", "log", "empty"}[:r.n(2, 3)] {
+			t := &sdl.Type{Name: fmt.Sprintf("%sTL%d", idFlat, z), Local: true, Mixin: mx, Logger: mx == "log"}
+			p.Types = append(p.Types, t)
+			p.Instances = append(p.Instances, &sdl.Instance{ID: fmt.Sprintf("c%d", n+z), Type: t.Name, Alias: fmt.Sprintf("loc%d", n+z)})
+		}
+	}
 	// the twin: same program, fields moved into embedded carriers
 	js := p.JSON()
 	js = strings.ReplaceAll(js, idFlat+"T", idEmb+"T")
@@ -792,7 +802,7 @@ func GenerateTwins(seed uint64, idFlat, idEmb string) (*sdl.Program, *sdl.Progra
 		for _, cu := range t.Custom {
 			cu.Embed = embedChain(r, 0.8)
 		}
-		if t.Logger {
+		if t.Logger && !t.Local {
 			t.LogEmbed = embedChain(r, 0.8)
 		}
 	}
